@@ -169,7 +169,9 @@ def replay(cs, scenario, graph, rec, modes=DEFAULT_MODES, foreign=True, max_stat
                 e = eids[(si + 1) % len(eids)]
                 env = rec.envs[e]
                 rec.readable_obs(e, cs, env.last_obs.numpy_flat() if env.flat_obs else env.last_obs.numpy())
-        for (pre, k, luck, post, gate) in out[s]:
+        # the unlucky side of an action right before its lucky side (an implementation that remembers a failure
+        # must not let it decide the retry)
+        for (pre, k, luck, post, gate) in sorted(out[s], key=lambda ed: (ed[1], ed[2])):
             a = pyref.flat_action(cs, k)
             n_edges += 1
             grp += 1
@@ -180,6 +182,17 @@ def replay(cs, scenario, graph, rec, modes=DEFAULT_MODES, foreign=True, max_stat
                 u = pyref.draw_for(a["prob"], luck, j % 2)
                 counter += 1
                 rec.genstep(e, None, spec_for(cs, params, k, modes[j][1], counter), u, grp=grp * 2 + (j % 2))
+        # the same through real steps: a chance failure, then the very same action again with a lucky draw
+        unl = sorted(set(k for (pre, k, luck, post, gate) in out[s] if gate == "unlucky"))
+        if unl:
+            k = unl[si % len(unl)]
+            a = pyref.flat_action(cs, k)
+            for j, e in enumerate(eids[:2]):
+                counter += 1
+                sp_ = spec_for(cs, params, k, modes[j][1], counter)
+                rec.step(e, sp_, pyref.draw_for(a["prob"], False, j % 2))
+                rec.step(e, sp_, pyref.draw_for(a["prob"], True, j % 2))
+                tree_steps += 2
         if foreign and si > 0:
             s2 = order[(si * 7 + 3) % si]
             obj = kept[s2]
